@@ -330,7 +330,8 @@ def run_batch(prop, tier, verif_seed, runs=None, budget_s=None):
 
 
 def write_replay(prop, seed, tier, plan, rule, viol, mres, suffix=""):
-    path = os.path.join(REPLAY_DIR, f"{prop}-{seed}{suffix}.json")
+    slug = "".join(ch if ch.isalnum() else "_" for ch in rule)[:40]
+    path = os.path.join(REPLAY_DIR, f"{prop}-{seed}-{slug}{suffix}.json")
     doc = {
         "property": prop,
         "rule": rule,
